@@ -312,9 +312,42 @@ def c05_concurrent(tier, mi):
     return viols, cov, E2_ASSUME
 
 
+def c05_refusals(tier, mi):
+    """Install histories with library-raised installation failures and user panics at every position."""
+    depth = 4 if tier == "quick" else 5
+    args = ["hist", "--depth", str(depth), "--per-child", "256", "--fs", "--small", "--refusals"]
+    outs = run_engine_sharded(bin_path("e3"), args, NCPU, timeout=2400)
+    m = _merge_hist(outs)
+    viols = []
+    for v in sorted(m["violations"], key=lambda v: (v["step"] & 0xFFF, len(v["history"]))):
+        if v["prop"] == "MACHINERY":
+            raise MachineryError(f"{v['key']}: {v['what']}")
+        abnormal = any(o.startswith("R") or o == "P" for o in v["history"])
+        if v["prop"] == "C05" or (v["prop"] == "*" and abnormal):
+            viols.append({"key": v["key"], "what": v["what"], "engine": "e3", "args": ["hist", "--fs", "--refusals"], "case": {"history": v["history"], "step": v["step"] & 0xFFF}})
+    for (p, k), n in m["counts"].items():
+        have = [v for v in viols if v["key"] == k]
+        if have and n > len(have) and p == "C05":
+            viols += [dict(have[0]) for _ in range(min(n, 1000) - len(have))]
+    cov = {"states": m["prefixes"], "transitions": m["steps"], "refusal_histories": m["histories"], "refusal_alphabet": m["alphabet"], "samples": m["samples"][:2]}
+    return viols, cov
+
+
+def c05_extra(tier, mi):
+    v1, c1, a1 = c05_concurrent(tier, mi)
+    v2, c2 = c05_refusals(tier, mi)
+    cov = dict(c1)
+    for k in ("states", "transitions"):
+        cov[k] = c1.get(k, 0) + c2.get(k, 0)
+    cov["samples"] = c1.get("samples", [])[:1] + c2.get("samples", [])[:1]
+    cov["refusal_histories"] = c2["refusal_histories"]
+    cov["refusal_alphabet"] = c2["refusal_alphabet"]
+    return v1 + v2, cov, a1 + ["refused installations (signature mismatch, null pointer, boolean on a non-bool function, no memory for the trampoline, mprotect failure) are injected at every position of every install history up to the depth; an installation that fails in mprotect abandons its trampoline page, which no given property forbids"]
+
+
 def check_c05(tier):
     runs = times_runs(tier, [0, 1, 2], 7, 9)
-    return times_family("C05", tier, runs, [], extra=c05_concurrent)
+    return times_family("C05", tier, runs, [], extra=c05_extra)
 
 
 # ---------------------------------------------------------------------------------------------
